@@ -98,6 +98,13 @@ func c19Run(c *core.Ctx) *core.Result {
 		switch R.Intn(3) {
 		case 0:
 			src.Put(tree.Entry{Path: listingName, Type: tree.File, Perm: 0644, Mtime: 1e18, Data: []byte("source listing")})
+			if R.P(1, 2) {
+				// ... with a second name: the link is announced like any
+				// other entry and belongs into the listing (it cannot be
+				// selected: its source never is)
+				src.Put(tree.Entry{Path: "zz.listing-link", Type: tree.File, Perm: 0644, Mtime: 1e18, Data: []byte("source listing"), LinkTo: listingName})
+				r.Count("sources_with_a_hard_link_to_the_listing_name", 1)
+			}
 		case 1:
 			src.Put(tree.Entry{Path: listingName, Type: tree.Symlink, Perm: 0777, Target: "a", Mtime: 1e18})
 		case 2:
@@ -149,7 +156,26 @@ func c19Run(c *core.Ctx) *core.Result {
 		}
 	}
 	delete(selected, listingName)
+	for _, e := range src.Entries {
+		if e.LinkTo == listingName && e.Type != tree.Symlink {
+			delete(selected, e.Path)
+		}
+	}
 	selFn := func(p string, st *types.Stat) bool { return selected[filepath.ToSlash(p)] }
+	if core.NewRand(core.Mix(c.Seed, "C19-selector-edits", c.Index)).P(1, 3) {
+		// a selector that edits the stat it is shown (as Filter functions
+		// do) for entries it does not select: the listing records what the
+		// sender announced, not what a callback made of it
+		selFn = func(p string, st *types.Stat) bool {
+			sel := selected[filepath.ToSlash(p)]
+			if !sel && !st.IsDir() {
+				st.Uid, st.Gid, st.ModTime = 4242, 4243, 7
+				st.Xattrs = map[string][]byte{"user.selector": []byte("edited")}
+			}
+			return sel
+		}
+		r.Count("selectors_editing_unselected_stats", 1)
+	}
 
 	// prior destination
 	eo := editOpt{Owners: o.Owners, Types: "fdlpcb", Xattrs: true}
